@@ -93,7 +93,23 @@ CONFIGS = [
     ('a.b.param',),
     ('a.b.c.x',),
     ('a.b.c.x', 'a.b.y'),
+    # a leaf of a sub-object next to a deeper path through the SAME sub-object, in both declaration orders
+    ('a.y', 'a.b.x'),
+    ('a.b.x', 'a.y'),
+    ('a.x', 'a.b.x'),
+    # three dependencies mixing depths (leaf first / in the middle / last; second branch; depth 3)
+    ('a.y', 'a.b.x', 'a.b.y'),
+    ('a.b.x', 'a.y', 'a.c.x'),
+    ('a.b.x', 'a.b.y', 'a.x'),
+    ('a.y', 'a.b.x', 'a.b.c.x'),
 ]
+# dependency sets whose length-k histories are a seeded slice in the quick tier (all of them in thorough;
+# their histories of length 2 from every initial state are always complete)
+NEW_CONFIGS = CONFIGS[14:]
+SAMPLED_QUICK = {c: (4 if len(c) == 2 else 8) for c in NEW_CONFIGS}
+ARM_QUICK = CONFIGS[:16]
+# the three-dependency sets: complete histories one step shorter than the other sets in the thorough tier
+SHORTER = set(c for c in NEW_CONFIGS if len(c) == 3)
 
 CLASSES_SRC = '''import logging, warnings
 import param
@@ -580,21 +596,29 @@ def uncertain(specs, op, before, after):
 
 def batch_expectation(specs, info, before, after):
     """(lo, hi) calls for one batch on an object H.  Items assigning a parameter of H itself are
-    batched: together they may cause at most ONE call; an item that assigns a parameter of another
+    batched: together they may cause at most ONE call (one per run of batched items when an ordinary,
+    value-changing assignment sits between them); an item that assigns a parameter of another
     object (a leaf of a sub-object, a slot of an object that the batch itself just attached) is an
     ordinary assignment of its own: at most one call each.  At least one call is demanded only when
     the values reached before and after the WHOLE batch differ (resolving both times) and no item
     passed through an unresolved path."""
     nb = ni = 0
     unc = False
+    in_run = False
     for it, b, a, batched in info:
         u = uncertain(specs, it, b, a)
         unc = unc or u
         if value_changed(b, a) or u:
             if batched:
-                nb = 1
+                # lenient: an ordinary assignment that calls the method in the middle of the batch splits the
+                # batched items into those before and those after it (the statement does not say how a batch
+                # coalesces around a call made while it is open): at most one call per such run
+                if not in_run:
+                    nb += 1
+                in_run = True
             else:
                 ni += 1
+                in_run = False
     if ni and not nb and any(batched and it[0] != 'lsa' for it, _b, _a, batched in info):
         nb = 1      # lenient: the batched replacements are compared at the flush, i.e. after the
         #             ordinary assignments made on the replaced objects inside the batch
@@ -848,7 +872,9 @@ def batch_histories(cfg, tier, init='full'):
 
 
 # ('a.b.param' is left out of the batch family: every replacement of a fires it, known finding C07-b04)
-BATCH_ALL = [c for c in CONFIGS if c != ('a.b.param',)]
+BATCH_ALL = [c for c in CONFIGS if c != ('a.b.param',) and
+             (c not in NEW_CONFIGS or c in (('a.y', 'a.b.x'), ('a.b.x', 'a.y'), ('a.y', 'a.b.x', 'a.b.y'),
+                                            ('a.y', 'a.b.x', 'a.b.c.x')))]
 BATCH_QUICK = [('a.x',), ('a.x', 'c.x'), ('a.x', 'z'), ('a.b.x',), ('a.b.x', 'a.c.x'), ('a.b.x', 'a.x')]
 
 
@@ -968,24 +994,37 @@ def _run(tier, seed):
               "length); all shorter histories are its prefixes and are checked step by step"
               % len(CONFIGS)),
         bound=("histories of length <= %d (depth-3 sets: fill sequence of <= 3 attachments + %d further "
-               "operations); path depth <= 3; <= 2 dependency leaves (4 for 'param'); <= 1 faulty object "
-               "per slot at a time; armed / batch families: <= 3 steps, batches of <= 3 items (update: <= 2)"
-               % (k, kx)))
+               "operations); path depth <= 3; <= 3 dependency leaves (4 for 'param'); <= 1 faulty object "
+               "per slot at a time; armed / batch families: <= 3 steps, batches of <= 3 items (update: <= 2); "
+               "the 7 sets mixing a leaf with a deeper path through the same sub-object: %s"
+               % (k, kx, "length <= 2 complete + a seeded 1/4 (two dependencies) resp. 1/8 (three) of length 3 from "
+                         "the full state" if tier == 'quick' else
+                         "two dependencies as all others, three dependencies length <= %d" % (k - 1))))
     warnings.simplefilter('ignore')
     tasks = []
     nfill = 0
     for specs in CONFIGS:
         cfg = Cfg(specs)
         for init in cfg.inits:
-            for h in histories(cfg, init, min(2, k)):
-                tasks.append((specs, init, h, k))
+            for j, h in enumerate(histories(cfg, init, min(2, k))):
+                stride = SAMPLED_QUICK.get(specs) if tier == 'quick' else None
+                if stride and (init != 'full' or (j + seed) % stride):
+                    B.exhaustive = False
+                    tasks.append((specs, init, h, None))      # the prefix itself only
+                    continue
+                tasks.append((specs, init, h, k - 1 if (tier != 'quick' and specs in SHORTER) else k))
             if cfg.depth >= 3:
+                short = 1 if (tier != 'quick' and specs in SHORTER) else 0
                 for fill in fills(cfg, init):
                     if len(fill) + kx <= k:
                         continue        # contained in the histories of length k above
                     nfill += 1
-                    for h in histories(cfg, init, len(fill) + 1, fill):
-                        tasks.append((specs, init, h, len(fill) + kx))
+                    if len(fill) + 1 > len(fill) + kx - short:
+                        continue
+                    for j, h in enumerate(histories(cfg, init, len(fill) + 1, fill)):
+                        if tier == 'quick' and specs in SAMPLED_QUICK and (j + seed) % SAMPLED_QUICK[specs]:
+                            continue
+                        tasks.append((specs, init, h, len(fill) + kx - short))
     nchunk = 256
     allv = []
     raisers = {}
@@ -995,7 +1034,7 @@ def _run(tier, seed):
     with ProcessPoolExecutor(max_workers=min(16, os.cpu_count() or 4)) as ex:
         # ---- additional families (explicit histories, enumerated in the workers):
         #      the dependent method raises / replacements inside one batch
-        fam = [('arm', specs, tier, seed) for specs in CONFIGS]
+        fam = [('arm', specs, tier, seed) for specs in (CONFIGS if tier == 'thorough' else ARM_QUICK)]
         fam += [('bat', specs, tier, seed) for specs in (BATCH_ALL if tier == 'thorough' else BATCH_QUICK)]
         nfam = {'arm': [0, 0], 'bat': [0, 0]}
         for which, specs, short, long_ in ex.map(family_chunk, fam):
